@@ -144,7 +144,7 @@ def run_plan(plan: dict, replay=None) -> dict:
         if gs_inits is not None:
             cgs = compiled.init_state(G, gs_inits[e], e)
         else:
-            cgs = G.init(jax.random.PRNGKey(1), starting_eps=e)
+            cgs = compiled.graph_init(G, jax.random.PRNGKey(1), starting_eps=e)
         n = G.max_steps
         out, _ = compiled.drive(G, cgs, "run_jit" if plan["seed"] % 2 else "rollout_carry", n)
         evs = probes.take_trace()
